@@ -663,7 +663,7 @@ class NotationData(Signature):
             self.value = val.decode('latin-1')
 
         else:  # pragma: no cover
-            self._value = val
+            self._value = bytearray(val)
 
     def __init__(self):
         super(NotationData, self).__init__()
